@@ -73,12 +73,19 @@ def check_qf(q, timeout_ms):
     quants = [a for a in A if z3.is_quantifier(a)]
     neg = skolemize_neg_goal(q.goal)
     insts = [z3.simplify(fold(i_)) for i_ in inst.instantiate(quants, ground + neg)]
-    s = z3.Solver()
-    s.set('timeout', timeout_ms)
-    s.set('smt.mbqi', False)
-    for a in ground + insts + neg:
-        s.add(a)
-    r = s.check()
+    r = z3.unknown
+    # small portfolio: the legacy arithmetic core is much quicker on div/mod-by-constant identities
+    for opts, share in (({'smt.arith.solver': 2}, 0.4), ({}, 1.0)):
+        s = z3.Solver()
+        s.set('timeout', max(200, int(timeout_ms * share)))
+        s.set('smt.mbqi', False)
+        for k_, v_ in opts.items():
+            s.set(k_, v_)
+        for a in ground + insts + neg:
+            s.add(a)
+        r = s.check()
+        if r != z3.unknown:
+            break
     if os.environ.get('PYVC_DEBUGQF') and r != z3.unsat:
         print('   [qf]', r, 'quants', len(quants), 'insts', len(insts), 'goal', str(q.goal)[:80].replace('\n', ' '))
         for i_ in insts[:40]:
